@@ -326,6 +326,37 @@ def shifted_lognormal(res):
             fail(res, 'latent correlation differs from the lognormal closed form', case, [float(nat.rhoZ[0, 1]), want])
 
 
+def boundary_and_sampling(res, rng):
+    """(a) a point outside the support of one marginal has joint density 0 (a number, not nan); (b) getSample is the image under getX
+    of the standard normal vector drawn from the generator (whatever numpy routine draws it: randn, standard_normal and normal share
+    one stream)"""
+    core.import_impl()
+    import numpy as np
+    from scipy import stats
+    from ffpack import rpm
+    nat = rpm.NatafTransformation([stats.expon(), stats.norm()], [[1.0, 0.5], [0.5, 1.0]])
+    for x in ([-0.5, 0.3], [-2.0, -1.0], [-0.1, 4.0]):
+        res.evaluations += 1
+        res.stat('pdf_outside_support')
+        v = float(nat.pdf(x))
+        if not (v == 0.0):
+            fail(res, 'pdf outside the support of a marginal is not 0', {'marginals': ['expon()', 'norm()'], 'corr': 0.5, 'x': x}, repr(v))
+    dists = [stats.norm(), stats.expon(), stats.norm(10, 2)]
+    R = [[1.0, 0.6, 0.2], [0.6, 1.0, -0.3], [0.2, -0.3, 1.0]]
+    nat3 = rpm.NatafTransformation(dists, R)
+    for sd in (3, 11):
+        np.random.seed(sd)
+        smp = np.asarray(nat3.getSample(), dtype=float)
+        np.random.seed(sd)
+        u = np.random.randn(3)
+        want = np.asarray(nat3.getX(u)[0], dtype=float)
+        res.evaluations += 1
+        res.stat('getSample_is_getX_of_the_drawn_vector')
+        if not np.allclose(smp, want, rtol=1e-12, atol=1e-12):
+            fail(res, 'getSample is not the Nataf image of the standard normal vector it drew', {'marginals': 'norm, expon, norm(10,2)', 'corr': R, 'seed': sd},
+                 {'sample': smp.tolist(), 'getX(u)': want.tolist()})
+
+
 def fallback_search(res):
     """the last-resort root search: make the first two fsolve calls report failure (fault injected from outside)"""
     core.import_impl()
@@ -365,6 +396,7 @@ def run(tier, seed):
     sparse_corr(res)
     pdf_tails(res)
     shifted_lognormal(res)
+    boundary_and_sampling(res, random.Random(seed + 2))
     fallback_search(res)
     res.traces = res.evaluations
     res.disagreements_checked = res.evaluations
